@@ -121,6 +121,15 @@ fn one<C: Cs>(ctx: &Ctx, st: &Setup<C>, other: Option<&Setup<C>>, r: &mut impl r
             reject(&format!("attribute-count#{n2}"), &|| verify(&proof, &st.cpk_n(n2), st.pk(), &st.bases_n(n2), &rev2, &u, n2));
         }
     }
+    // attribute count edited upwards while everything else stays as it was (the verifier's bases and commitment
+    // key have room for more attributes than the credential has)
+    for extra in [1usize, 2] {
+        let n2 = n + extra;
+        if n2 <= st.bases.0.len() && n2 <= st.cpk.g_bases.len() {
+            reject(&format!("attribute-count-up-same-lists#{n2}"), &|| verify(&proof, &st.cpk_n(n2), st.pk(), &st.bases_n(n2), &revealed, &u, n2));
+            reject(&format!("attribute-count-up-exact-key#{n2}"), &|| verify(&proof, &cpk, st.pk(), &bases, &revealed, &u, n2));
+        }
+    }
     // a proof for another signature / other messages
     {
         let mut m2 = msgs.clone();
@@ -161,7 +170,7 @@ fn one<C: Cs>(ctx: &Ctx, st: &Setup<C>, other: Option<&Setup<C>>, r: &mut impl r
 
 fn run<C: Cs>(ctx: &Ctx, idx: u64, nmax: usize) {
     let mut r = ctx.rng("c15", idx);
-    let Some(st) = Setup::<C>::new(ctx, nmax + 1) else {
+    let Some(st) = Setup::<C>::new(ctx, nmax + 2) else {
         ctx.inconclusive("C15: key generation panicked (C18's business)");
         return;
     };
